@@ -119,5 +119,45 @@ Section Feat.
     let xn := absf (sub (nth idmin x zero) (nth idmax x zero)) in
     mul (div (mul yd xn) (list_max y)) million.
 
-  (* finishing map of the magnitude-type features: c * log(1 + v) *)
+  (* feat_con_bln_variation, before log(1+.)/5: the baseline residuals without their
+     last tenth; |mean of the first ten - mean of the last ten| / max y * 1000 *)
+  Definition bln_variation_core (cp : T) (x y res : list T) : option T :=
+    let r := rows (fun v => ltb cp v) x res in
+    let r' := firstn (length r - length r / 10) r in
+    if Nat.ltb 20 (length r') then
+      let a1 := div (tsum (firstn 10 r')) (of_nat 10) in
+      let a2 := div (tsum (skipn (length r' - 10) r')) (of_nat 10) in
+      Some (mul (div (absf (sub a1 a2)) (list_max y)) (of_nat 1000))
+    else None.
+
+  (* feat_con_bln_slope, before log(1+|.|)/10: least-squares slope of the residuals
+     over the outer half of the baseline, / max y *)
+  Definition ls_slope (xs ys : list T) : T :=
+    let n := of_nat (length xs) in
+    div (sub (mul n (tsum (map2 mul xs ys))) (mul (tsum xs) (tsum ys)))
+        (sub (mul n (tsum (map2 mul xs xs))) (mul (tsum xs) (tsum xs))).
+  Definition bln_slope_core (cp : T) (x y res : list T) : option T :=
+    let breakp := div (add (list_max x) cp) (of_nat 2) in
+    let xs := rows (fun v => ltb breakp v) x x in
+    let ys := rows (fun v => ltb breakp v) x res in
+    if Nat.ltb 20 (length xs) then Some (div (ls_slope xs ys) (list_max y)) else None.
+
+  (* feat_con_cp_curvature, before log(1+|.|)*sign/4: the force around the contact point
+     minus the straight line from its minimum to its maximum, summed, / max y * 10 *)
+  Definition lin_space (a b : T) (n : nat) : list T :=
+    map (fun i => add a (mul (of_nat i) (div (sub b a) (of_nat (n - 1))))) (seq 0 n).
+  Definition cp_curvature_core (cp : T) (x y : list T) : option T :=
+    let cpid := argmin (map (fun v => absf (sub v cp)) x) in
+    let maxid := argmax y in
+    let incl := (if Nat.leb cpid maxid then maxid - cpid else cpid - maxid) / 10 in
+    if Nat.ltb 5 incl then
+      (* a negative start index wraps around in Python: kept apart *)
+      if Nat.ltb cpid incl then None
+      else match slice (cpid - incl) (cpid + incl) y with
+           | [] => None
+           | reg => Some (mul (div (tsum (map2 sub reg
+                                            (lin_space (list_min reg) (list_max reg) (length reg))))
+                                   (list_max y)) (of_nat 10))
+           end
+    else None.
 End Feat.
